@@ -344,8 +344,60 @@ func buildOcase(o *output, stream string, u *universe, cl resolve.Client, vm loc
 		"states": states, "nontrivial": len(states[0].Vulns) > 0 && npatch > 0}))
 }
 
+// genOverrideChain builds, on top of a random universe, the two-step situation on purpose: the only fix
+// of the direct dependency ca pulls in cb at a vulnerable version, and the fixes of cb lie a patch, a
+// minor and/or a major step above it; cb gets its own level (or falls under the default).
+func genOverrideChain(r *rand.Rand) (*universe, manifestSpec, []vulnSpec, upgrade.Config) {
+	u := genUniverse(r, resolve.Maven)
+	a0, a1 := "1.0.0", pick(r, []string{"1.0.1", "1.0.1", "1.1.0", "2.0.0"})
+	b0 := pick(r, []string{"1.0.0", "1.2.3", "2.1.0"})
+	var maj, min, pat int
+	fmt.Sscanf(b0, "%d.%d.%d", &maj, &min, &pat)
+	steps := map[string]string{
+		"patch": fmt.Sprintf("%d.%d.%d", maj, min, pat+1),
+		"minor": fmt.Sprintf("%d.%d.0", maj, min+1),
+		"major": fmt.Sprintf("%d.0.0", maj+1),
+	}
+	// which fixes exist: mostly only the bigger ones, so that the level decides
+	kinds := pick(r, [][]string{{"major"}, {"major"}, {"minor", "major"}, {"minor"}, {"patch", "minor", "major"}, {"patch"}})
+	bvers := []uVer{{V: b0}}
+	for _, k := range kinds {
+		bvers = append(bvers, uVer{V: steps[k]})
+	}
+	fix := steps[kinds[0]]
+	count("override_chain_fix_step", kinds[0])
+	ca := uPkg{Name: "org.x:ca", Versions: []uVer{{V: a0}, {V: a1, Deps: []uDep{{Name: "org.x:cb", Req: b0}}}}}
+	if r.Intn(3) == 0 { // the old version already depends on cb, at a version that is not affected
+		ca.Versions[0].Deps = []uDep{{Name: "org.x:cb", Req: fix}}
+	}
+	cb := uPkg{Name: "org.x:cb", Versions: bvers}
+	u.Pkgs = append(u.Pkgs, ca, cb)
+	m := genManifest(r, u)
+	m.Deps = append([]mDep{{Name: "org.x:ca", Req: a0}}, m.Deps...)
+	vs := genTargetedVulns(r, u, m)
+	vs = append(vs,
+		vulnSpec{ID: "C-A", Pkg: "org.x:ca", Events: [][2]string{{"introduced", "0"}, {"fixed", a1}}},
+		vulnSpec{ID: "C-B", Pkg: "org.x:cb", Events: [][2]string{{"introduced", "0"}, {"fixed", fix}}})
+	cfg := genConfig(r, u)
+	cfg.Set("org.x:ca", upgrade.Major)
+	lv := pick(r, []upgrade.Level{upgrade.Minor, upgrade.Minor, upgrade.Patch, upgrade.Patch, upgrade.None, upgrade.Major})
+	if r.Intn(2) == 0 {
+		cfg.Set("org.x:cb", lv)
+	} else {
+		delete(cfg, "org.x:cb")
+		cfg.SetDefault(lv)
+	}
+	count("override_chain_level_of_introduced_package", levelCoq(cfg.Get("org.x:cb")))
+	return u, m, vs, cfg
+}
+
 func streamFixMaven(o *output, r *rand.Rand, n int) {
 	for i := 0; i < n; i++ {
+		if i%3 == 2 {
+			u, m, vs, cfg := genOverrideChain(r)
+			runFixMaven(o, u, m, vs, cfg, "")
+			continue
+		}
 		u := genUniverse(r, resolve.Maven)
 		m := genManifest(r, u)
 		vs := genTargetedVulns(r, u, m)
@@ -461,9 +513,9 @@ func runFixMaven(o *output, u *universe, m manifestSpec, vs []vulnSpec, cfg upgr
 	if oc != callOK || ferr != nil {
 		return
 	}
-	var ups []result.PackageUpdate
+	var ups [][]result.PackageUpdate
 	for _, p := range res.Patches {
-		ups = append(ups, p.PackageUpdates...)
+		ups = append(ups, p.PackageUpdates)
 	}
 	addUcases(o, pre+"ucase", 2, u.Sys, cl, m0, path, cfg, ups, func(p result.PackageUpdate) bool { return distinctInOrder(u, p.Name) }, info)
 }
